@@ -42,6 +42,11 @@ func TypeCheck(dir string, tests bool, patterns ...string) (*CheckResult, error)
 				if s == "" || strings.HasPrefix(s, "#") || strings.HasPrefix(s, "-: #") {
 					continue
 				}
+				// build output that vanished under the loader (a temp-directory cleaner, a full disk) is an
+				// infrastructure failure, not a property of the checked package
+				if strings.Contains(s, "could not import") && (strings.Contains(s, "no such file or directory") || strings.Contains(s, "no space left")) {
+					return nil, fmt.Errorf("loader infrastructure failure: %s", s)
+				}
 				if !seen[s] {
 					seen[s] = true
 					res.Errors = append(res.Errors, s)
